@@ -742,6 +742,34 @@ func C05(c *core.Ctx, replay string) {
 					w.Close()
 					return
 				}
+				if pl.name == "put_del_get" && pl.initPresent && !pl.fine && !pl.same {
+					// directed: the two nested windows of a DELETE - the upload completes
+					// after the delete looked at the object (del.stat), the read runs after
+					// the delete took the name away (del.removed / del.attrs_removed); a
+					// finished request ignores further steps, so the counts are generous
+					rep := func(p string, n int) []string {
+						out := make([]string, n)
+						for i := range out {
+							out[i] = p
+						}
+						return out
+					}
+					cat := func(parts ...[]string) []string {
+						var out []string
+						for _, x := range parts {
+							out = append(out, x...)
+						}
+						return out
+					}
+					for _, sc := range [][]string{
+						cat(rep("d1", 2), rep("p1", 12), rep("d1", 1), rep("g1", 8), rep("d1", 4)),
+						cat(rep("d1", 2), rep("p1", 12), rep("d1", 2), rep("g1", 8), rep("d1", 4)),
+						cat(rep("d1", 1), rep("p1", 12), rep("d1", 2), rep("g1", 8), rep("d1", 4)),
+						cat(rep("d1", 2), rep("p1", 12), rep("d1", 4), rep("g1", 8)),
+					} {
+						behs = append(behs, pkBehaviour{Sched: sc, Class: "ok"})
+					}
+				}
 			}
 			// (3) replay each into the real gateway
 			ndrift := 0
